@@ -226,7 +226,7 @@ func countFails(steps []c14Step) int {
 	return n
 }
 
-var failClasses = []string{"syntax", "undefined-reference", "duplicate-type", "duplicate-member-by-extend", "extend-missing-target", "extend-kind-mismatch", "validation-rule", "validation-rule", "validation-rule-on-existing", "schema-block-then-failure", "reader-fault", "second-extension-fails"}
+var failClasses = []string{"syntax", "undefined-reference", "duplicate-type", "duplicate-member-by-extend", "extend-missing-target", "extend-kind-mismatch", "validation-rule", "validation-rule", "validation-rule-on-existing", "schema-extension-only-error", "schema-block-then-failure", "reader-fault", "second-extension-fails"}
 
 // touchContent writes valid content that modifies existing definitions (extends, schema block).
 func touchContent(t *rapid.T, s *hx.Schema, n int, label string) string {
@@ -361,6 +361,16 @@ func genCaseC14(t *rapid.T) *c14Case {
 			// or, for a scalar or enum, the object is refused for implementing / the union for its members)
 			if k := s.KindOf(some); (k == hx.KScalar || k == hx.KEnum) && strings.Contains(bad, "ZqX") {
 				bad = fmt.Sprintf("type ZqE%d {}", n)
+			}
+		case "schema-extension-only-error":
+			// nothing is wrong with the document except what its extension of the (implied or written)
+			// schema says: a root that is no object type, an operation nobody knows, a directive that
+			// does not belong there
+			bad = rapid.SampledFrom([]string{"extend schema { zqop: %s }", "input ZqNo%d { a: Int }\nextend schema { subscription: ZqNo%d }", "extend schema @include(if: true) { query: %s }", "enum ZqNe%d { A }\nextend schema { mutation: ZqNe%d }"}).Draw(t, lab+"val")
+			if strings.Contains(bad, "%s") {
+				bad = fmt.Sprintf(bad, some)
+			} else {
+				bad = fmt.Sprintf(bad, n, n)
 			}
 		case "schema-block-then-failure":
 			valid = fmt.Sprintf("schema { query: %s }\n", some) + valid
